@@ -226,7 +226,14 @@ def main():
             "def o = <* checkerlang_secure_mode = FALSE, go = fn(self) do %(e)s end *>; o->go()", "def class checkerlang_secure_mode do def _init_(self) do 1 end end; %(e)s",
             "def checkerlang_secure_mode() FALSE; %(e)s", "for [checkerlang_secure_mode, z] in [[FALSE, 1]] do %(e)s end", "def f(checkerlang_secure_mode...) do %(e)s end; f(FALSE)",
             "eval('def checkerlang_secure_mode = FALSE'); %(e)s", "require c09flag; %(e)s", "set_secure_mode(FALSE); %(e)s", "bind_native('checkerlang_secure_mode'); %(e)s",
-            "def g() do def checkerlang_secure_mode = FALSE; %(e)s end; g()", "while TRUE do def checkerlang_secure_mode = FALSE; %(e)s; break end", "%(e)s"]
+            "def g() do def checkerlang_secure_mode = FALSE; %(e)s end; g()",
+            # compound assignments desugar to calls of add / sub / mul / div / mod looked up by name
+            "def add(a, b) FALSE; checkerlang_secure_mode += 1; %(e)s", "def sub(a, b) FALSE; checkerlang_secure_mode -= 1; %(e)s",
+            "def mul(a, b) FALSE; checkerlang_secure_mode *= 1; %(e)s", "def div(a, b) FALSE; checkerlang_secure_mode /= 1; %(e)s",
+            "def mod(a, b) FALSE; checkerlang_secure_mode %%= 1; %(e)s", "checkerlang_secure_mode += 'x'; checkerlang_secure_mode *= 0; %(e)s",
+            "do checkerlang_secure_mode += 'x' catch all 0 end; do checkerlang_secure_mode *= 0 catch all 0 end; %(e)s",
+            "def f() do checkerlang_secure_mode += '' end; do f() catch all 0 end; %(e)s", "checkerlang_secure_mode -= TRUE; %(e)s",
+            "def o = <*a = 1*>; o->checkerlang_secure_mode = FALSE; %(e)s", "def m = <<<>>>; m['checkerlang_secure_mode'] = FALSE; %(e)s", "while TRUE do def checkerlang_secure_mode = FALSE; %(e)s; break end", "%(e)s"]
     for fl in FLAG:
         for e in ESCAPE:
             I = fresh()
